@@ -246,19 +246,29 @@ func setDeadline(ctx context.Context, conn net.Conn) context.CancelFunc {
 	}
 }
 
+// setWriteDeadline is like setDeadline but only affects writes.
+// As there, the deadline stays in the past until the returned function is
+// called: a cancellation that arrives before the write has started (or between
+// two writes of one element) must not be lost.
 func setWriteDeadline(ctx context.Context, conn net.Conn) context.CancelFunc {
 	cancelCtx, cancel := context.WithCancel(context.Background())
+	done := make(chan struct{})
 	go func() {
+		defer close(done)
 		select {
 		case <-ctx.Done():
 			/* #nosec */
 			conn.SetWriteDeadline(aLongTimeAgo)
+			<-cancelCtx.Done()
 			/* #nosec */
 			conn.SetWriteDeadline(time.Time{})
 		case <-cancelCtx.Done():
 		}
 	}()
-	return cancel
+	return func() {
+		cancel()
+		<-done
+	}
 }
 
 func negotiateSession(ctx context.Context, location, origin jid.JID, rw io.ReadWriter, state SessionState, negotiate Negotiator) (*Session, error) {
